@@ -340,6 +340,10 @@ func (x *Exec) applyContract(fr *Frame, st *State, callee *ssa.Function, fc *Fun
 
 // havocPattern havocs the locations named by an assigns pattern evaluated in env.
 func (x *Exec) havocPattern(env *Env, st *State, pat string) error {
+	if strings.HasPrefix(pat, "@") {
+		x.havocPrefix(st, "S:"+x.resolveTypeKey(pat[1:]))
+		return nil
+	}
 	locs, err := x.patternLocs(env, st, pat)
 	if err != nil {
 		return err
@@ -373,6 +377,12 @@ type patLoc struct {
 // patternLocs resolves "e.*", "e.f", "e.f[*]", "s[*]", "*p".
 func (x *Exec) patternLocs(env *Env, st *State, pat string) ([]patLoc, error) {
 	name, rest := splitAssign(pat)
+	if strings.HasPrefix(name, "g_") {
+		return []patLoc{{loc: &Loc{Kind: locMem, Key: "G:ghost." + name, RootT: types.Typ[types.Int], T: types.Typ[types.Int]}}}, nil
+	}
+	if strings.HasPrefix(pat, "@") {
+		return nil, nil
+	}
 	v, ok := env.vars[name]
 	if !ok {
 		return nil, fmt.Errorf("unknown parameter %q", name)
@@ -467,6 +477,9 @@ func (x *Exec) inAssigns(fr *Frame, st *State, loc *Loc) string {
 	}
 	start, end, _, _ := navigate(loc.RootT, loc.Steps)
 	for _, pat := range fr.fc.Assigns {
+		if strings.HasPrefix(pat, "@") && strings.HasPrefix(loc.Key, "S:"+x.resolveTypeKey(pat[1:])) {
+			return "true"
+		}
 		pls, err := x.patternLocs(env, fr.entry, pat)
 		if err != nil {
 			continue
@@ -701,4 +714,13 @@ func (x *Exec) builtinAppend(fr *Frame, st *State, args []Val, rt types.Type, po
 		st.mem[key] = x.define("H", srt, "(store "+c2+" "+rArr+" "+na+")")
 	}
 	return Val{Typ: rt, L: []string{rArr, rOff, newLen, rCap}}
+}
+
+// resolveTypeKey maps a short type name used in "@T" assigns patterns to the component type key.
+func (x *Exec) resolveTypeKey(name string) string {
+	switch name {
+	case "bytes.Buffer":
+		return "bytes.Buffer"
+	}
+	return name
 }
